@@ -329,6 +329,8 @@ def gen_spec(r, P):
         S["detector"] = "StateDigraph"
         S["plan"] = [["deadlock"]]
     S["cap"] = P["stepcap"]
+    if P.get("f_bad") and r.random() < P["f_bad"]:
+        S["_f_bad"] = True
     if P.get("f_bigclock") and F("f_bigclock"):
         S["clock0"] = float(r.choice([1e6, 1e9, 1e12]))
     else:
